@@ -1343,6 +1343,11 @@ fn parse_abstract_literal(
         Some(b'.') => {
             reader.set_state(state);
             let (real, mut text) = parse_real_literal(buffer, reader)?;
+            if reader.pos() < pos_after_initial {
+                // The integer part contains an invalid character, which ended the real literal
+                // before the '.' was reached (such as `1g.5`)
+                initial?;
+            }
 
             match reader.peek()? {
                 // Exponent
